@@ -364,7 +364,12 @@ impl World {
                 (Some(t), Some(d)) if t == d => {
                     // exact tie between an event and the deadline: both orders are legal
                     self.now = d;
-                    if self.choose(2) == 0 {
+                    let deadline_first = match self.sc.swarm.tie {
+                        1 => true,
+                        2 => false,
+                        _ => self.choose(2) == 0,
+                    };
+                    if deadline_first {
                         return false;
                     }
                     // let exactly the events of this instant happen, then the deadline
